@@ -77,6 +77,7 @@ func main() {
 	out := flag.String("out", "", "report file (JSON)")
 	replay := flag.String("replay", "", "replay file to execute instead of generating")
 	trace := flag.Bool("trace", false, "print the event trace of a replay")
+	soloFile := flag.String("solo", "", "compute one reference outcome described by this file and print its key (child-process mode)")
 	jsonOut := flag.Bool("json", false, "replay: print the result as JSON (used for child-process execution)")
 	racelog := flag.String("racelog", "", "prefix of the race detector's log_path (race build)")
 	hashes := flag.Bool("hashes", false, "record the event-log hash of every run (determinism self-test)")
@@ -86,7 +87,11 @@ func main() {
 	flag.Parse()
 
 	run.Install()
+	if *soloFile != "" {
+		os.Exit(doSolo(*soloFile))
+	}
 	opt := run.Options{RaceLog: run.OpenRaceLog(*racelog)}
+	opt.Pristine = func(s *scn.Scenario, it run.SoloItem) (string, bool) { return childSolo(s, it) }
 	start := time.Now()
 
 	if *replay != "" {
@@ -195,6 +200,52 @@ func main() {
 		binary.LittleEndian.PutUint64(hb[8*i:], h)
 	}
 	_ = os.WriteFile(*out+".nt", hb, 0o644)
+}
+
+type soloReq struct {
+	Scenario *scn.Scenario `json:"scenario"`
+	Item     run.SoloItem  `json:"item"`
+}
+
+func doSolo(path string) int {
+	b, err := os.ReadFile(path)
+	if err != nil {
+		return 2
+	}
+	var rq soloReq
+	if json.Unmarshal(b, &rq) != nil || rq.Scenario == nil {
+		return 2
+	}
+	fmt.Print(run.SoloInPristineProcess(rq.Scenario, rq.Item))
+	return 0
+}
+
+// childSolo computes one reference outcome in a pristine child process of this
+// binary (plain execution: no race log, the outcome is all that matters).
+func childSolo(s *scn.Scenario, it run.SoloItem) (string, bool) {
+	tmp, err := os.CreateTemp(filepath.Dir(os.Args[0]), "solo-*.json")
+	if err != nil {
+		return "", false
+	}
+	defer os.Remove(tmp.Name())
+	c := *s
+	c.Before, c.Steps, c.Tasks, c.Sched = nil, nil, nil, nil
+	b, _ := json.Marshal(&soloReq{Scenario: &c, Item: it})
+	tmp.Write(b)
+	tmp.Close()
+	cmd := exec.Command(os.Args[0], "-solo", tmp.Name())
+	var env []string
+	for _, e := range os.Environ() {
+		if !strings.HasPrefix(e, "GORACE=") {
+			env = append(env, e)
+		}
+	}
+	cmd.Env = append(env, "GORACE=halt_on_error=0 exitcode=0 atexit_sleep_ms=0 log_path="+filepath.Join(filepath.Dir(os.Args[0]), "out", "solorace"))
+	out, err := cmd.Output()
+	if err != nil {
+		return "", false
+	}
+	return string(out), true
 }
 
 // childExec executes a scenario in a pristine child process of this same
